@@ -1,0 +1,214 @@
+//! Verification hook: observable stand-ins for the synchronisation
+//! primitives used by `atomic_base_time`.
+//!
+//! Each stand-in delegates to the real `std` primitive with the same
+//! arguments (in particular, the same memory ordering).  When a callback is
+//! registered with [`set_callback`], every atomic access and lock operation
+//! also reports an [`Event`] before and after it happens; with no callback
+//! registered the stand-ins are pass-through (one relaxed load of a flag,
+//! which adds no synchronisation).
+use std::ops::Deref;
+use std::ops::DerefMut;
+use std::sync::atomic::AtomicBool;
+use std::sync::atomic::Ordering;
+use std::sync::LockResult;
+use std::sync::PoisonError;
+use std::sync::RwLock;
+use std::sync::TryLockError;
+use std::sync::TryLockResult;
+
+/// The kind of operation an [`Event`] describes.
+#[derive(Clone, Copy, Debug, Eq, PartialEq, Hash)]
+pub enum Op {
+    /// `AtomicU64::load`
+    Load,
+    /// `AtomicU64::store`
+    Store,
+    /// `Mutex::lock` (blocking)
+    Lock,
+    /// `Mutex::try_lock`
+    TryLock,
+    /// Release of a mutex guard
+    Unlock,
+    /// `Mutex::clear_poison`
+    ClearPoison,
+}
+
+/// One step of the observed module, reported before (`after == false`) and
+/// after (`after == true`) it takes effect.
+#[derive(Clone, Copy, Debug)]
+pub struct Event {
+    /// Address of the atomic or mutex.
+    pub object: usize,
+    /// What is being done.
+    pub op: Op,
+    /// The memory ordering passed by the caller, for atomic accesses.
+    pub ordering: Option<Ordering>,
+    /// False just before the operation, true just after.
+    pub after: bool,
+    /// Loaded value (after a load), stored value (store), or 1/0 for the
+    /// success of a lock attempt (after `Lock` / `TryLock`).
+    pub value: u64,
+}
+
+type Callback = Box<dyn Fn(&Event) + Send + Sync>;
+
+static ENABLED: AtomicBool = AtomicBool::new(false);
+static CALLBACK: RwLock<Option<Callback>> = RwLock::new(None);
+
+/// Registers (or, with `None`, removes) the process-wide event callback.
+pub fn set_callback(callback: Option<Callback>) {
+    let mut slot = CALLBACK.write().unwrap_or_else(|e| e.into_inner());
+    ENABLED.store(callback.is_some(), Ordering::SeqCst);
+    *slot = callback;
+}
+
+#[inline(always)]
+fn emit(object: usize, op: Op, ordering: Option<Ordering>, after: bool, value: u64) {
+    if !ENABLED.load(Ordering::Relaxed) {
+        return;
+    }
+
+    emit_slow(Event {
+        object,
+        op,
+        ordering,
+        after,
+        value,
+    });
+}
+
+#[inline(never)]
+fn emit_slow(event: Event) {
+    let slot = CALLBACK.read().unwrap_or_else(|e| e.into_inner());
+    if let Some(callback) = slot.as_ref() {
+        callback(&event);
+    }
+}
+
+/// Stand-in for `std::sync::atomic::AtomicU64`.
+#[derive(Debug)]
+pub struct AtomicU64 {
+    inner: std::sync::atomic::AtomicU64,
+}
+
+impl AtomicU64 {
+    /// See `std::sync::atomic::AtomicU64::new`.
+    pub const fn new(value: u64) -> Self {
+        Self {
+            inner: std::sync::atomic::AtomicU64::new(value),
+        }
+    }
+
+    #[inline(always)]
+    fn id(&self) -> usize {
+        self as *const Self as usize
+    }
+
+    /// See `std::sync::atomic::AtomicU64::load`.
+    #[inline(always)]
+    pub fn load(&self, ordering: Ordering) -> u64 {
+        emit(self.id(), Op::Load, Some(ordering), false, 0);
+        let ret = self.inner.load(ordering);
+        emit(self.id(), Op::Load, Some(ordering), true, ret);
+        ret
+    }
+
+    /// See `std::sync::atomic::AtomicU64::store`.
+    #[inline(always)]
+    pub fn store(&self, value: u64, ordering: Ordering) {
+        emit(self.id(), Op::Store, Some(ordering), false, value);
+        self.inner.store(value, ordering);
+        emit(self.id(), Op::Store, Some(ordering), true, value);
+    }
+}
+
+/// Stand-in for `std::sync::Mutex`.
+#[derive(Debug)]
+pub struct Mutex<T> {
+    inner: std::sync::Mutex<T>,
+}
+
+/// Stand-in for `std::sync::MutexGuard`.
+#[derive(Debug)]
+pub struct MutexGuard<'a, T> {
+    inner: Option<std::sync::MutexGuard<'a, T>>,
+    object: usize,
+}
+
+impl<T> Mutex<T> {
+    /// See `std::sync::Mutex::new`.
+    pub const fn new(value: T) -> Self {
+        Self {
+            inner: std::sync::Mutex::new(value),
+        }
+    }
+
+    #[inline(always)]
+    fn id(&self) -> usize {
+        self as *const Self as usize
+    }
+
+    fn wrap<'a>(&self, guard: std::sync::MutexGuard<'a, T>) -> MutexGuard<'a, T> {
+        MutexGuard {
+            inner: Some(guard),
+            object: self.id(),
+        }
+    }
+
+    /// See `std::sync::Mutex::lock`.
+    pub fn lock(&self) -> LockResult<MutexGuard<'_, T>> {
+        emit(self.id(), Op::Lock, None, false, 0);
+        let ret = match self.inner.lock() {
+            Ok(guard) => Ok(self.wrap(guard)),
+            Err(poison) => Err(PoisonError::new(self.wrap(poison.into_inner()))),
+        };
+        emit(self.id(), Op::Lock, None, true, 1);
+        ret
+    }
+
+    /// See `std::sync::Mutex::try_lock`.
+    pub fn try_lock(&self) -> TryLockResult<MutexGuard<'_, T>> {
+        emit(self.id(), Op::TryLock, None, false, 0);
+        let ret = match self.inner.try_lock() {
+            Ok(guard) => Ok(self.wrap(guard)),
+            Err(TryLockError::Poisoned(poison)) => Err(TryLockError::Poisoned(PoisonError::new(
+                self.wrap(poison.into_inner()),
+            ))),
+            Err(TryLockError::WouldBlock) => Err(TryLockError::WouldBlock),
+        };
+        let acquired = !matches!(ret, Err(TryLockError::WouldBlock));
+        emit(self.id(), Op::TryLock, None, true, acquired as u64);
+        ret
+    }
+
+    /// See `std::sync::Mutex::clear_poison`.
+    pub fn clear_poison(&self) {
+        emit(self.id(), Op::ClearPoison, None, false, 0);
+        self.inner.clear_poison();
+        emit(self.id(), Op::ClearPoison, None, true, 0);
+    }
+}
+
+impl<T> Deref for MutexGuard<'_, T> {
+    type Target = T;
+
+    fn deref(&self) -> &T {
+        self.inner.as_ref().expect("guard is live")
+    }
+}
+
+impl<T> DerefMut for MutexGuard<'_, T> {
+    fn deref_mut(&mut self) -> &mut T {
+        self.inner.as_mut().expect("guard is live")
+    }
+}
+
+impl<T> Drop for MutexGuard<'_, T> {
+    fn drop(&mut self) {
+        emit(self.object, Op::Unlock, None, false, 0);
+        // Release the real lock before reporting the release.
+        self.inner = None;
+        emit(self.object, Op::Unlock, None, true, 0);
+    }
+}
